@@ -331,8 +331,16 @@ def part_strand(res, part):
                 dev(res, "Strand.relative_to", ("strand", s.name, t.name), s.relative_to(t).name, exp.name, "strand-relative")
             if s.relative_to(t) is not t.relative_to(s):
                 dev(res, "Strand.relative_to", ("strand", s.name, t.name, "commut"), None, None, "strand-relative-commutative")
-            if (s < t) != (order.index(s) < order.index(t)) or (s <= t) != (order.index(s) <= order.index(t)) or (s > t) != (order.index(s) > order.index(t)):
-                dev(res, "Strand.__lt__", ("strand", s.name, t.name, "order"), s < t, order.index(s) < order.index(t), "strand-order")
+            i, j = order.index(s), order.index(t)
+            got = (s < t, s <= t, s > t, s >= t, s == t, s != t)
+            exp6 = (i < j, i <= j, i > j, i >= j, i == j, i != j)
+            if got != exp6:
+                # a total order: all six comparison operators agree with one ranking (every pair, equal pairs included)
+                dev(res, "Strand.__lt__", ("strand", s.name, t.name, "order"), list(got), list(exp6), "strand-order")
+            if sorted([s, t]) != sorted([s, t], key=order.index) or min(s, t) is not min(s, t, key=order.index) or max(t, s) is not max(t, s, key=order.index):
+                dev(res, "Strand.sorted", ("strand", s.name, t.name, "sorted"), [x.name for x in sorted([s, t])], None, "strand-order")
+            if (hash(s) == hash(t)) != (s is t):
+                dev(res, "Strand.__hash__", ("strand", s.name, t.name, "hash"), None, None, "strand-hash")
             for u in Strand:
                 res.trans()
                 if s.relative_to(t).relative_to(u) is not s.relative_to(t.relative_to(u)):
